@@ -17,7 +17,7 @@ FAMILY_OPS = {
     "matrix": [(6, "m_new"), (8, "m_row"), (6, "m_slice"), (7, "m_set_s"), (7, "m_set_v"), (5, "m_set_m"), (5, "m_iop"), (4, "m_bad"),
                (6, "get"), (5, "set_s"), (4, "slice"), (5, "mask"), (4, "alias"), (4, "iop"), (3, "mv"), (3, "ro"), (6, "release"), (2, "gcp")],
     "array2d": [(6, "d_new"), (8, "d_item"), (8, "d_slice"), (7, "d_set_s"), (6, "d_set_a"), (5, "d_set_1d"), (5, "d_mask_get"),
-                (5, "d_mask_set"), (5, "d_iop"), (4, "d_bad"), (4, "release"), (2, "gcp")],
+                (5, "d_mask_set"), (5, "d_iop"), (4, "elem_w"), (4, "d_bad"), (4, "release"), (2, "gcp")],
     "varray": [(6, "v_new"), (8, "v_row"), (6, "v_slice"), (7, "v_mask"), (7, "v_set_row"), (8, "v_set_v"), (5, "v_set_m"), (5, "v_size"),
                (4, "v_resize"), (4, "v_ro"), (4, "v_bad"), (6, "get"), (5, "set_s"), (4, "iop"), (3, "ro"), (5, "mask"), (4, "alias"), (3, "comp"),
                (3, "slice"), (2, "mv"), (8, "release"), (3, "gcp")],
@@ -47,6 +47,7 @@ def gen_family_op(r, fam, o, op, maxn, gen_slice):
         op["rhs"] = r.choice(["scalar", "same", "same", "badshape"])
     elif o in ("d_item",):
         op["i"], op["j"] = r.range(-6, 5), r.range(-6, 5)
+        op["keep"] = r.chance(0.5)
     elif o in ("d_slice", "d_set_s", "d_set_a", "d_set_1d"):
         def fwd():
             if r.chance(0.4):
@@ -394,8 +395,15 @@ class FamilyMixin:
         if bad:
             self.inc("fault.bad_index")
         self.expect(got, bad, "a.item(%d,%d) of size (%d,%d)" % (i, j, h.lx, h.ly))
-        if not bad and not self.elem_eq(h.tname, got[1], h.store.vals[(j % h.ly) * h.lx + (i % h.lx)]):
+        if bad:
+            return
+        k = (j % h.ly) * h.lx + (i % h.lx)
+        if not self.elem_eq(h.tname, got[1], h.store.vals[k]):
             raise self.Violation("element-value", "a.item(%d,%d) returned %r" % (i, j, got[1]))
+        if op.get("keep") and h.atype.startswith("Color4"):
+            # class-type elements come back as a reference into the 2-D array (and keep it alive)
+            self.add(self.Handle(got[1], "elem", h.tname, h.store, [k], True))
+            self.inc("probe.array2d_element_reference_kept")
 
     def op_d_slice(self, op):
         h = self.pick_a2d(op)
